@@ -1,20 +1,32 @@
-"""purlsa.thread -- jump threading of materialised booleans (a CFG normalisation, DESIGN.md 2.2).
+"""purlsa.thread -- jump threading of values whose shape is known where they are stored (a CFG normalisation, DESIGN.md 2.2).
 
-`a || b` bound to a variable, `matches!(..)`, a closure or helper returning a condition: the compiler (or the inliner)
-stores `true` / `false` into a local on the deciding paths, joins them, and branches on the local afterwards.  The branch
-only replays what the paths already decided.  This pass re-routes every path that stores a *constant* directly to the
-target the later branch would take for that constant (duplicating the few straight-line statements in between), which is
-the textbook jump-threading optimisation and preserves semantics exactly: every statement of the original path is still
-executed, only the re-test is skipped.  Afterwards the condition is visible to the guard analysis as ordinary branching.
+`a || b` bound to a variable, `matches!(..)`, a closure or helper returning a condition, a helper returning `Ok(..)` /
+`Err(..)` / an enum value that its caller immediately matches on (`helper(x)?`): the compiler (or the inliner) stores a
+value of known shape into a local on the deciding paths, joins the paths, and branches on the local afterwards.  The branch
+only replays what the paths already decided.  This pass re-routes every path that stores a value of *known* shape directly
+to the target the later branch takes for that shape, duplicating the straight-line statements (and the pure `?` plumbing
+calls) in between -- the textbook jump-threading / tail-duplication optimisation.  It preserves semantics exactly: every
+statement of the original path is still executed in the same order, only the re-test is skipped.  Afterwards the condition
+is visible to the guard analysis as ordinary branching, and every `?` of an inlined helper has its own error exit again.
 
-Conservative limits: the path from the store to the branch must consist of `goto`-terminated, non-cleanup blocks that are
-not loop headers, at most MAX_BLOCKS blocks and MAX_STMTS statements; statements on it may only copy the value around or
-write other locals.
+What is known about a local:  True / False (constant store);  ("variant", Name) (an ADT aggregate was stored; the result
+of FromResidual::from_residual is the failure variant of its Result / Option type; Try::branch maps Ok/Some to Continue and
+Err/None to Break);  an integer (the discriminant read from a local of known variant).
+
+Conservative limits: the duplicated path consists of non-cleanup blocks that are not loop headers; a local that also
+receives values inside a loop which the test is not part of (a state variable set while scanning and matched after the
+loop) is left to the loop analyses; ending in `goto`, in a
+call of Try::branch / FromResidual::from_residual, or in the switch to be resolved; at most MAX_BLOCKS blocks and
+MAX_STMTS statements are duplicated per path.  After the resolved switch the walk continues through further straight-line
+plumbing (so that the error exits of several `?` do not share their `from_residual` call) and stops in front of the first
+block that does anything else.
 """
 import copy
 
-MAX_BLOCKS = 6
-MAX_STMTS = 16
+MAX_BLOCKS = 10
+MAX_STMTS = 24
+TRY_BRANCH = "std::ops::Try::branch"
+FROM_RESIDUAL = "std::ops::FromResidual::from_residual"
 
 
 def _const_bool(st):
@@ -27,91 +39,245 @@ def _const_bool(st):
     return v if isinstance(v, bool) else None
 
 
-def _written(st):
-    if st.get("s") in ("assign", "setdiscr"):
-        return st["place"]["l"], bool(st["place"]["proj"])
-    return None, False
+def _plain_local(op):
+    if op.get("o") in ("copy", "move") and not op["place"]["proj"]:
+        return op["place"]["l"]
+    return None
 
 
-def _step(env, st):
-    """constant propagation over one statement; returns False if the statement makes the tracked value unknown"""
-    l, partial = _written(st)
-    if l is None:
-        return True
-    if st.get("s") == "assign" and not partial:
-        rv = st["rv"]
-        if rv["r"] == "use" and rv["op"]["o"] in ("copy", "move") and not rv["op"]["place"]["proj"] and rv["op"]["place"]["l"] in env:
-            env[l] = env[rv["op"]["place"]["l"]]
-            return True
+def _step(env, st, roots=None):
+    """knowledge propagation over one statement; roots[l] = the locals through which the known value travelled"""
+    _step0(env, st)
+    if roots is not None and st.get("s") == "assign" and not st["place"]["proj"]:
+        l = st["place"]["l"]
+        if l in env:
+            rv = st["rv"]
+            src = None
+            if rv["r"] == "use":
+                src = _plain_local(rv["op"])
+            elif rv["r"] == "discr" and not rv["place"]["proj"]:
+                src = rv["place"]["l"]
+            roots[l] = (roots.get(src, frozenset()) if src is not None else frozenset()) | {l}
+        else:
+            roots.pop(l, None)
+
+
+def _step0(env, st):
+    s = st.get("s")
+    if s not in ("assign", "setdiscr"):
+        return
+    l = st["place"]["l"]
+    if s == "setdiscr" or st["place"]["proj"]:
+        env.pop(l, None)
+        return
+    rv = st["rv"]
+    r = rv["r"]
+    if r == "use":
+        src = _plain_local(rv["op"])
+        if src is not None and src in env:
+            env[l] = env[src]
+            return
         c = _const_bool(st)
         if c is not None:
             env[l] = c
-            return True
-    if l in env:
-        del env[l]
-    return True
+            return
+    elif r == "aggregate" and rv.get("ak") == "adt" and rv.get("variant") is not None:
+        env[l] = ("variant", rv["variant"])
+        return
+    elif r == "discr" and not rv["place"]["proj"] and rv["place"]["l"] in env and rv.get("variants"):
+        k = env[rv["place"]["l"]]
+        if isinstance(k, tuple) and k[0] == "variant" and k[1] in rv["variants"]:
+            env[l] = rv["variants"].index(k[1])
+            return
+    env.pop(l, None)
+
+
+def _call_knowledge(body, env, t):
+    """knowledge about the destination of a plumbing call, or None if the call is not plumbing"""
+    ce = t.get("callee", {})
+    path = ce.get("path")
+    if t["dest"]["proj"] or t.get("target") is None:
+        return None
+    if path == TRY_BRANCH and len(t["args"]) == 1:
+        src = _plain_local(t["args"][0])
+        k = env.get(src)
+        if isinstance(k, tuple) and k[0] == "variant":
+            if k[1] in ("Ok", "Some"):
+                return ("variant", "Continue")
+            if k[1] in ("Err", "None"):
+                return ("variant", "Break")
+        return None
+    if path == FROM_RESIDUAL and len(t["args"]) == 1:
+        ty = body.locals[t["dest"]["l"]]["ty"]
+        if ty.startswith("std::result::Result<"):
+            return ("variant", "Err")
+        if ty.startswith("std::option::Option<"):
+            return ("variant", "None")
+    return None
+
+
+def _seed_env(body, bl, roots):
+    env = {}
+    for st in bl["stmts"]:
+        _step(env, st, roots)
+    return env
 
 
 def thread_bools(body):
-    """Rewrite body.blocks (private copy).  Returns the number of threaded stores."""
+    """Rewrite body.blocks (private copy).  Returns the number of threaded paths."""
     blocks = body.blocks
-    headers = set(body.loops().keys())
+    loops = body.loops()
+    headers = set(loops.keys())
+
+    def nest(b):
+        return frozenset(h for h, blk in loops.items() if b in blk)
+    defs = body.defs()
+
+    def loop_carried(root, switch_bb):
+        """the stored local also receives values inside a loop that the testing block is not part of: a state variable of
+        that loop (set while scanning, matched afterwards) -- left to the loop analyses"""
+        sw = nest(switch_bb)
+        for (b, i, kind, payload) in defs.get(root, []):
+            if nest(b) - sw:
+                return True
+        return False
+
     n_threaded = 0
     nb0 = len(blocks)
     for d in range(nb0):
         bl = blocks[d]
-        if bl["cleanup"] or bl["term"]["t"] != "goto":
+        if bl["cleanup"]:
             continue
-        # the last constant-bool store of the block (later statements are walked as part of the path)
-        idx = None
-        for i, st in enumerate(bl["stmts"]):
-            if _const_bool(st) is not None and body.locals[st["place"]["l"]]["ty"] == "bool":
-                idx = i
-        if idx is None:
+        t0 = bl["term"]
+        roots = {}
+        if t0["t"] == "goto":
+            env = _seed_env(body, bl, roots)
+            start = t0["target"]
+        elif t0["t"] == "call":
+            env = _seed_env(body, bl, roots)
+            k = _call_knowledge(body, env, t0)
+            if k is None:
+                continue
+            env = dict(env)
+            env[t0["dest"]["l"]] = k
+            roots[t0["dest"]["l"]] = frozenset([t0["dest"]["l"]])
+            start = t0["target"]
+        else:
             continue
-        env = {}
-        ok = True
-        for st in bl["stmts"][idx:]:
-            _step(env, st)
         if not env:
             continue
-        dup = []
-        cur = bl["term"]["target"]
+        # walk
+        dup = [[]]          # statement lists of the duplicated blocks
+        spans = [None]
+        terms = []          # terminator (a plumbing call) closing dup[i], for i < len(dup) - 1
+        cur = start
         seen = {d}
-        target = None
+        resolved = 0
+        nst = 0
+        final = None        # block to jump to at the end
+        ok = True
         for _ in range(MAX_BLOCKS):
             if cur in seen or cur in headers or blocks[cur]["cleanup"]:
-                ok = False
                 break
-            seen.add(cur)
             cb = blocks[cur]
-            for st in cb["stmts"]:
-                _step(env, st)
-                dup.append(copy.deepcopy(st))
-            if len(dup) > MAX_STMTS or not env:
-                ok = False
-                break
             t = cb["term"]
+            # look ahead: can this block be passed?
+            env2 = dict(env)
+            roots2 = dict(roots)
+            for st in cb["stmts"]:
+                _step(env2, st, roots2)
+            nxt = None
+            call_dup = None
+            cur_resolves = False
             if t["t"] == "goto":
-                cur = t["target"]
-                continue
-            if t["t"] == "switch":
-                op = t["discr"]
-                if op["o"] in ("copy", "move") and not op["place"]["proj"] and op["place"]["l"] in env:
-                    val = 1 if env[op["place"]["l"]] else 0
-                    target = t["otherwise"]
+                nxt = t["target"]
+            elif t["t"] == "switch":
+                l = _plain_local(t["discr"])
+                if l is not None and l in env2 and not isinstance(env2[l], tuple) and not any(loop_carried(r, cur) for r in roots2.get(l, frozenset([l]))):
+                    val = env2[l]
+                    val = (1 if val else 0) if isinstance(val, bool) else val
+                    nxt = t["otherwise"]
                     for (v, tg) in t["arms"]:
                         if v == val:
-                            target = tg
-                    break
-            ok = False
-            break
-        if not ok or target is None:
+                            nxt = tg
+                    resolved += 1
+                    cur_resolves = True
+            elif t["t"] == "call":
+                k = _call_knowledge(body, env2, t)
+                if k is not None:
+                    env2[t["dest"]["l"]] = k
+                    src = _plain_local(t["args"][0])
+                    roots2[t["dest"]["l"]] = (roots2.get(src, frozenset()) if src is not None else frozenset()) | {t["dest"]["l"]}
+                    call_dup = copy.deepcopy(t)
+                    nxt = t["target"]
+            if nxt is None or nst + len(cb["stmts"]) > MAX_STMTS:
+                break
+            if resolved and not (t["t"] == "switch" and nxt is not None and cur_resolves) and not all(st.get("s") == "other" or (st.get("s") == "assign" and st["rv"]["r"] == "use") for st in cb["stmts"]):
+                break  # past the re-test only pure value shuffling (the `?` plumbing of an error exit) is duplicated
+            # pass the block
+            seen.add(cur)
+            for st in cb["stmts"]:
+                dup[-1].append(copy.deepcopy(st))
+            if spans[-1] is None or call_dup is not None:
+                spans[-1] = (cb.get("span"), cb.get("file"))
+            nst += len(cb["stmts"])
+            env = env2
+            roots = roots2
+            if call_dup is not None:
+                terms.append(call_dup)
+                dup.append([])
+                spans.append(None)
+            cur = nxt
+        final = cur
+        if not resolved:
             continue
-        if dup:
-            blocks.append({"stmts": dup, "term": {"t": "goto", "target": target}, "cleanup": False, "span": blocks[cur].get("span"), "file": blocks[cur].get("file"), "threaded": True})
-            bl["term"] = {"t": "goto", "target": len(blocks) - 1}
+        # materialise
+        span = blocks[start].get("span")
+        fil = blocks[start].get("file")
+        first_new = len(blocks)
+        nblocks = len(dup)
+        if nblocks == 1 and not dup[0]:
+            entry = final
         else:
-            bl["term"] = {"t": "goto", "target": target}
+            for i in range(nblocks):
+                if i < nblocks - 1:
+                    term = terms[i]
+                    term["target"] = first_new + i + 1
+                else:
+                    term = {"t": "goto", "target": final}
+                sp = spans[i] or (span, fil)
+                blocks.append({"stmts": dup[i], "term": term, "cleanup": False, "span": sp[0], "file": sp[1], "threaded": True})
+            entry = first_new
+        if t0["t"] == "goto":
+            bl["term"] = {"t": "goto", "target": entry}
+        else:
+            t0["target"] = entry
         n_threaded += 1
+    if n_threaded:
+        # blocks that no path reaches any more (the joined re-test when every store was threaded) carry no meaning
+        reach = set()
+        st = [0]
+        while st:
+            b = st.pop()
+            if b in reach:
+                continue
+            reach.add(b)
+            t = blocks[b]["term"]
+            k = t["t"]
+            nx = []
+            if k == "goto":
+                nx = [t["target"]]
+            elif k == "switch":
+                nx = [tg for (_, tg) in t["arms"]] + [t["otherwise"]]
+            elif k in ("call", "drop", "assert"):
+                if t.get("target") is not None:
+                    nx.append(t["target"])
+                if isinstance(t.get("unwind"), int):
+                    nx.append(t["unwind"])
+            st.extend(nx)
+        for b in range(len(blocks)):
+            if b not in reach and not blocks[b]["cleanup"]:
+                blocks[b]["stmts"] = []
+                blocks[b]["term"] = {"t": "unreachable"}
+                blocks[b]["dead"] = True
     return n_threaded
